@@ -1,20 +1,24 @@
 // publish: concurrent readers against ONE importing/producing goroutine of a real node (C20).
 //
 // For each seeded stream (pre-minted block tree with transactions, side branches, reorganisations, epoch boundaries):
+//
 //  1. a reference node imports the stream WITHOUT readers: source of the expected content of every block and of the
 //     final store digest / log db / best / finalized;
+//
 //  2. `runs` fresh nodes import the same stream at full speed while reader goroutines loop: observe best -> read header,
 //     body, ancestors by number, tx lookups, state (sampled / the ENTIRE state) -> observe finalized / justified; two of
 //     them go through the real REST handlers (accounts, blocks, transactions, logs, call simulation).  Every failed
 //     read for a block observed as best, every answer that is not the block's data, every finalized observation that
 //     is not a descendant-or-equal of the previous one is recorded as a violation with the goroutine's log;
+//
 //  3. at quiescence the store digest, the number of recorded writes and the log-db dump are taken, a batch of all query
 //     kinds (incl. call simulations that write inside the EVM) is run, and everything must be byte-identical; the node
 //     must also equal the reference node (queries did not change what the importer stored);
+//
 //  4. importer writes (kvrec.OnWrite, under the engine's lock) and reader observations are stamped from ONE atomic
 //     counter and written as a trace for specs/store/Trace_Publish.tla.
 //
-//	publish -out <dir> -seed S [-streams N] [-runs R] [-blocks B] [-propose K] [-readers 7] [-tracecap C]
+//     publish -out <dir> -seed S [-streams N] [-runs R] [-blocks B] [-propose K] [-readers 7] [-tracecap C]
 package main
 
 import (
@@ -120,6 +124,9 @@ func main() {
 			fmt.Println("HARNESS-ERROR", err)
 			os.Exit(3)
 		}
+		if len(w.refViol) > 0 {
+			stats = append(stats, runStats{Stream: s, Run: -1, Seed: sseed, PoS: w.net.Opt.PoS, Blocks: len(w.stream), ByPhase: map[string]uint64{}, Violations: w.refViol})
+		}
 		for _, id := range w.order {
 			f := w.facts[id]
 			blocksCfg[names.Name(id[:])] = map[string]any{"p": names.Name(f.parent[:]), "n": f.num}
@@ -222,6 +229,7 @@ func (w *world) concurrentRun(si, ri int, dir string, nReaders, tracecap int, na
 			st.Reorgs++
 		}
 	}
+	divT := ^uint64(0) // stamp of the first import whose outcome differs from the reference node
 	var vio []violation
 	add := func(sig, what string, log []string) {
 		vio = append(vio, violation{Sig: sig, What: what, Reader: "importer", Log: log})
@@ -267,6 +275,7 @@ func (w *world) concurrentRun(si, ri int, dir string, nReaders, tracecap int, na
 			}
 		}
 		diverged, divSig := "", "readers-changed-chain:best-or-finalized"
+		_ = divT
 		var dlog []string
 		for i := range seq {
 			if i >= len(w.ref.seq) {
@@ -274,6 +283,10 @@ func (w *world) concurrentRun(si, ri int, dir string, nReaders, tracecap int, na
 			}
 			a, b := seq[i], w.ref.seq[i]
 			if a.e != b.e || a.why != b.why || a.b != b.b || a.bestID != b.bestID || a.finID != b.finID {
+				divT = a.t
+				if a.t0 != 0 {
+					divT = a.t0
+				}
 				diverged = fmt.Sprintf("import #%d of block %s: with readers %s%s best %s finalized %s; without readers %s%s best %s finalized %s",
 					i, short(b.b), a.e, a.why, short(a.bestID), short(a.finID), b.e, b.why, short(b.bestID), short(b.finID))
 				if poisoned != "" {
@@ -331,8 +344,10 @@ func (w *world) concurrentRun(si, ri int, dir string, nReaders, tracecap int, na
 			st.FinSteps = r.maxFinSteps
 		}
 		for _, v := range r.viol {
-			if st.Diverged && (v.Sig == "best-unknown-block" || v.Sig == "api-inconsistent:blocks/best" || v.Sig == "api-inconsistent:best") {
-				continue // after a divergence the node produces other blocks than the reference node did
+			if st.Diverged && (v.E == 0 || v.E >= divT || len(rc.failures) > 0) {
+				// after the divergence the node works on another chain than the reference node (it even re-packs the
+				// same block): the run is reported once, under the divergence itself
+				continue
 			}
 			vio = append(vio, v)
 		}
@@ -415,7 +430,7 @@ func (w *world) quiescence(rc *runCtx, api *apiEnv, batch int) (map[string]any, 
 		}
 		cl := nodecheck.SortedKeys(classes)
 		vio = append(vio, violation{Sig: "query-wrote-to-store:" + strings.Join(cl, "+"),
-			What: fmt.Sprintf("a batch of %d read-only queries at quiescence changed the key-value store: digest %s -> %s, recorded writes %d -> %d, write classes %v", batch, d0, d1, l0, l1, cl),
+			What:   fmt.Sprintf("a batch of %d read-only queries at quiescence changed the key-value store: digest %s -> %s, recorded writes %d -> %d, write classes %v", batch, d0, d1, l0, l1, cl),
 			Reader: "quiescence", Log: log})
 	}
 	if d := nodecheck.DiffRows(e0, e1) + nodecheck.DiffRows(t0, t1); d != "" {
